@@ -100,6 +100,16 @@ SPECS = {
         ("explicit_update_uses_new_v", SIMU, "            u_np1 = u_n + dt * v_n\n            v_np1 = v_n + dt * a_np1", "            v_np1 = v_n + dt * a_np1\n            u_np1 = u_n + dt * v_np1"),
         ("hht_newmark_gamma_free", SIMU, "            gamma = 1 / 2 + alpha\n", "            gamma = gamma\n"),
     ],
+    "C06": [
+        ("seg4_dddN_sign", R + "FEM/Elems/_seg.py", "        dddN3 = [lambda r: 81 / 8]\n        dddN4 = [lambda r: -81 / 8]", "        dddN3 = [lambda r: -81 / 8]\n        dddN4 = [lambda r: 81 / 8]"),
+        ("quad8_ddN_entry", R + "FEM/Elems/_quad.py", "        ddN7 = [lambda r, s: -s - 1, lambda r, s: 0]", "        ddN7 = [lambda r, s: -s + 1, lambda r, s: 0]"),
+        ("tri10_ddN_entry", R + "FEM/Elems/_tri.py", "        ddN7 = [lambda r, s: 0, lambda r, s: 27 * r]", "        ddN7 = [lambda r, s: 0, lambda r, s: 27 * s]"),
+        ("tri15_dddN_entry", R + "FEM/Elems/_tri.py", "        dddN7 = [lambda r, s: 256 * s, lambda r, s: 0]", "        dddN7 = [lambda r, s: 128 * s, lambda r, s: 0]"),
+        ("prism15_ddN_entry", R + "FEM/Elems/_prism.py", "        ddN7 = [lambda r, s, t: 4 * t - 4, lambda r, s, t: 0, lambda r, s, t: 0]", "        ddN7 = [lambda r, s, t: 4 * t + 4, lambda r, s, t: 0, lambda r, s, t: 0]"),
+        ("eb2_hermite_ddN", ELBEAM, "        ddN2 = [lambda r: 3 * r / 4 - 1 / 4]", "        ddN2 = [lambda r: 3 * r / 4 + 1 / 4]"),
+        ("eb3_hermite_slope_scale", ELBEAM, "        N2 = lambda r: r**2 * (r - 1) ** 2 * (r + 1) / 8", "        N2 = lambda r: r**2 * (r - 1) ** 2 * (r + 1) / 4"),
+        ("hexa20_N_bubble_added", R + "FEM/Elems/_hexa.py", "        N1 = lambda r, s, t: (r - 1) * (s - 1) * (t - 1) * (r + s + t + 2) / 8", "        N1 = lambda r, s, t: (r - 1) * (s - 1) * (t - 1) * (r + s + t + 2) / 8 + (r**2 - 1) * (s**2 - 1) * (t**2 - 1) / 8"),
+    ],
 }
 
 
